@@ -66,6 +66,7 @@ MkExp(D) ==
   IN [args |-> [id \in ids |-> [i \in DOMAIN pr(id).requires |-> Eval(D, pr(id).requires[i])]],
       nres |-> [id \in ids |-> Len(pr(id).provides)],
       fall |-> [id \in ids |-> pr(id).fallible],
+      kind |-> [id \in ids |-> pr(id).kind],
       tdeps |-> [id \in ids |-> TransDeps(D, id)],
       needed |-> Needed(D), zia |-> ZeroInAsync(D), ret |-> Eval(D, D.ret),
       fnneeded |-> {id \in Needed(D) : pr(id).kind = "fn"}]
